@@ -145,10 +145,7 @@ class Index:
                     prev()
                 return match, skipped
 
-            # scanning ends below the oldest wanted key of the last match
-            stop = compiled_matches[-1]
-            if since:
-                stop += since
+            # each match range ends at the first key older than since
             match, skipped = next_match()
         else:
             match = None
@@ -197,8 +194,6 @@ class Index:
                             continue
                         else:
                             break
-                    elif key < stop:
-                        break
 
                     event_id = key[-32:]
                     if event_id in events:
